@@ -13,6 +13,9 @@ use std::sync::OnceLock;
 pub struct Dict {
     pub nums: Vec<u64>,
     pub strs: Vec<String>,
+    /// byte strings: the string literals as bytes (incl. non-UTF-8 `b"..."`) and array literals of
+    /// byte-sized numbers (`[0x44, 0x4c, 0x54, 0x01]`)
+    pub blobs: Vec<Vec<u8>>,
 }
 
 static DICT: OnceLock<Dict> = OnceLock::new();
@@ -38,11 +41,43 @@ fn collect_files(dir: &std::path::Path, out: &mut Vec<std::path::PathBuf>) {
     }
 }
 
-fn scan(text: &str, nums: &mut Vec<u64>, strs: &mut Vec<String>) {
+fn parse_num(tok: &str) -> Option<u64> {
+    let mut t: String = tok.chars().filter(|c| *c != '_').collect();
+    for suf in ["usize", "isize", "u128", "i128", "u64", "i64", "u32", "i32", "u16", "i16", "u8", "i8", "f32", "f64"] {
+        if t.ends_with(suf) {
+            t.truncate(t.len() - suf.len());
+            break;
+        }
+    }
+    if let Some(h) = t.strip_prefix("0x") {
+        u64::from_str_radix(h, 16).ok()
+    } else if let Some(h) = t.strip_prefix("0b") {
+        u64::from_str_radix(h, 2).ok()
+    } else if let Some(h) = t.strip_prefix("0o") {
+        u64::from_str_radix(h, 8).ok()
+    } else {
+        t.parse::<u64>().ok()
+    }
+}
+
+fn scan(text: &str, nums: &mut Vec<u64>, strs: &mut Vec<String>, blobs: &mut Vec<Vec<u8>>) {
     let b = text.as_bytes();
     let mut i = 0;
     while i < b.len() {
         let c = b[i];
+        if c == b'[' {
+            // an array literal made of byte-sized numbers only
+            if let Some(end) = (i + 1..b.len().min(i + 400)).find(|j| b[*j] == b']') {
+                let inner = &text[i + 1..end];
+                let parts: Vec<&str> = inner.split(',').map(|p| p.trim()).filter(|p| !p.is_empty()).collect();
+                if parts.len() >= 2 && parts.len() <= 64 {
+                    let vals: Vec<Option<u64>> = parts.iter().map(|p| if p.as_bytes()[0].is_ascii_digit() { parse_num(p) } else { None }).collect();
+                    if vals.iter().all(|v| matches!(v, Some(x) if *x <= 255)) {
+                        blobs.push(vals.iter().map(|v| v.unwrap() as u8).collect());
+                    }
+                }
+            }
+        }
         // line comments: literals in prose are not behaviour
         if c == b'/' && i + 1 < b.len() && b[i + 1] == b'/' {
             while i < b.len() && b[i] != b'\n' {
@@ -77,6 +112,7 @@ fn scan(text: &str, nums: &mut Vec<u64>, strs: &mut Vec<String>) {
             }
             i += 1;
             if !s.is_empty() && s.len() <= 48 {
+                blobs.push(s.clone());
                 if let Ok(t) = String::from_utf8(s) {
                     if !t.contains('{') {
                         strs.push(t);
@@ -95,25 +131,7 @@ fn scan(text: &str, nums: &mut Vec<u64>, strs: &mut Vec<String>) {
             while i < b.len() && (b[i].is_ascii_alphanumeric() || b[i] == b'_') {
                 i += 1;
             }
-            let tok: String = text[start..i].chars().filter(|c| *c != '_').collect();
-            // strip type suffixes (u8 .. u128, i8 .., usize, isize, f32, f64)
-            let mut t = tok.to_string();
-            for suf in ["usize", "isize", "u128", "i128", "u64", "i64", "u32", "i32", "u16", "i16", "u8", "i8", "f32", "f64"] {
-                if t.ends_with(suf) {
-                    t.truncate(t.len() - suf.len());
-                    break;
-                }
-            }
-            let v = if let Some(h) = t.strip_prefix("0x") {
-                u64::from_str_radix(h, 16).ok()
-            } else if let Some(h) = t.strip_prefix("0b") {
-                u64::from_str_radix(h, 2).ok()
-            } else if let Some(h) = t.strip_prefix("0o") {
-                u64::from_str_radix(h, 8).ok()
-            } else {
-                t.parse::<u64>().ok()
-            };
-            if let Some(v) = v {
+            if let Some(v) = parse_num(&text[start..i]) {
                 nums.push(v);
             }
             continue;
@@ -126,11 +144,16 @@ pub fn dict() -> &'static Dict {
     DICT.get_or_init(|| {
         let mut files = vec![];
         collect_files(std::path::Path::new(&src_dir()), &mut files);
-        let (mut nums, mut strs) = (vec![], vec![]);
+        let (mut nums, mut strs, mut blobs) = (vec![], vec![], vec![]);
         for f in files {
             if let Ok(t) = std::fs::read_to_string(&f) {
-                scan(&t, &mut nums, &mut strs);
+                scan(&t, &mut nums, &mut strs, &mut blobs);
             }
+        }
+        blobs.sort();
+        blobs.dedup();
+        if blobs.is_empty() {
+            blobs.push(b"DLT\x01".to_vec());
         }
         // neighbours of every literal: off-by-one guards live next to the constant
         // `u16::MAX` and friends are spelled as paths, not as literals
@@ -150,7 +173,7 @@ pub fn dict() -> &'static Dict {
         if strs.is_empty() {
             strs.push("DLT".into());
         }
-        Dict { nums: all, strs }
+        Dict { nums: all, strs, blobs }
     })
 }
 
@@ -167,6 +190,10 @@ pub fn num_below(r: &mut Rng, max: u64) -> Option<u64> {
 pub fn num(r: &mut Rng) -> u64 {
     let d = dict();
     d.nums[r.below(d.nums.len())]
+}
+pub fn blob(r: &mut Rng) -> &'static [u8] {
+    let d = dict();
+    &d.blobs[r.below(d.blobs.len())]
 }
 pub fn string(r: &mut Rng) -> &'static str {
     let d = dict();
